@@ -359,6 +359,17 @@ D4A_PAIRS = [('python_full_version >= "3.7"', 'python_full_version < "4.0.post1"
              ('python_version >= "3.7"', 'python_version < "4.0.post1"', "4.0.0")]
 
 
+# python_version atoms with a third ".0" segment, as from_specifier itself produces them (fixed defect D20), and partners
+PV3_PAIRS = [('python_version == "3.8.*" and python_version <= "3.8"', 'python_full_version >= "3.8.1"', "3.8.5"),
+             ('python_version == "3.8.0"', 'python_full_version >= "3.8.1"', "3.8.5"),
+             ('python_version != "3.8.0"', 'python_full_version < "3.8.4"', "3.8.2"),
+             ('python_version <= "3.8.0"', 'python_full_version > "3.8.1"', "3.8.5"),
+             ('python_version > "3.8.0"', 'python_full_version < "3.9.2"', "3.8.5"),
+             ('python_version >= "3.8.0"', 'python_full_version < "3.8.2"', "3.8.1"),
+             ('python_version < "3.9.0"', 'python_full_version >= "3.8.2"', "3.8.5"),
+             ('python_version ~= "3.8.0"', 'python_full_version >= "3.8.2"', "3.8.5")]
+
+
 # ----------------------------------------------------------------------------- oracles on real objects
 
 def is_nf(m, top=True) -> bool:
